@@ -58,6 +58,7 @@ type Step struct {
 	Ett     string   `json:"ett"` // oneTimeEventType ("" = absent)
 	// Fault: "abmf" = the account balance function cannot be reached while this request is served
 	Fault string `json:"fault"`
+	Kind  string `json:"kind"` // badcreate: what is wrong with the request
 	Usage   []Usage  `json:"usage"`
 	Trig    []string `json:"trig"`
 	Rg      string   `json:"rg"`
@@ -78,6 +79,9 @@ type Behaviour struct {
 	Ues   []string `json:"ues"`
 	Accts []Acct   `json:"accts"`
 	Steps []Step   `json:"steps"`
+	// Isn: how the consumer numbers its invocations: "" = one counter for the whole behaviour; "session" = every session
+	// counts its own requests 1, 2, ... (TS 32.290)
+	Isn string `json:"isn"`
 }
 
 type SeqDriver struct {
@@ -166,6 +170,7 @@ func (d *SeqDriver) runOne(b *Behaviour) {
 	}
 	sess := map[string]*sessInfo{}
 	lastGrant := map[string]int64{} // u|rg -> last granted total volume
+	isnOf := map[string]int{}       // session label -> invocations so far (Isn == "session")
 	seq := 0
 	d.emit(map[string]any{
 		"trace": b.ID, "seq": seq, "action": "reset",
@@ -198,10 +203,41 @@ func (d *SeqDriver) runOne(b *Behaviour) {
 			path := "/nchf-convergedcharging/v3/recharging/" + d.supi(st.U) + "_" + st.Rg
 			r := env.Do("PUT", path, nil, nil, 20*time.Second)
 			res = httpRes(r)
-		case "create", "update", "release":
+		case "badcreate":
+			// a create whose content is malformed; it names a notification URI of its own
 			body := map[string]any{
 				"subscriberIdentifier":     d.supi(st.U),
-				"invocationSequenceNumber": seq,
+				"invocationSequenceNumber": 1,
+				"nfConsumerIdentification": map[string]any{"nFName": "bad", "nodeFunctionality": "SMF"},
+				"notifyUri":                env.SinkURL + "/n/" + st.U + "/bad",
+				"chargingId":               99,
+			}
+			switch st.Kind {
+			case "nonfci":
+				delete(body, "nfConsumerIdentification")
+			case "pdu_noslice":
+				body["pDUSessionChargingInformation"] = map[string]any{"chargingId": 7,
+					"pduSessionInformation": map[string]any{"pduSessionID": 1, "dnnId": "internet"}}
+			case "pdu_noinfo":
+				body["pDUSessionChargingInformation"] = map[string]any{"chargingId": 7}
+			case "badplmn":
+				body["nfConsumerIdentification"] = map[string]any{"nFName": "bad", "nodeFunctionality": "SMF",
+					"nFPLMNID": map[string]any{"mcc": "20", "mnc": "893"}}
+			}
+			args["kind"] = st.Kind
+			bb, _ := json.Marshal(body)
+			r := env.Do("POST", "/nchf-convergedcharging/v3/chargingdata", bb, nil, 30*time.Second)
+			res = httpRes(r)
+		case "create", "update", "release":
+			isn := seq
+			if b.Isn == "session" {
+				isnOf[st.S]++
+				isn = isnOf[st.S]
+			}
+			args["isn"] = isn
+			body := map[string]any{
+				"subscriberIdentifier":     d.supi(st.U),
+				"invocationSequenceNumber": isn,
 			}
 			var sentUsage []any
 			lsnLo := d.lsn + 1
